@@ -7,12 +7,13 @@ globals().update(
         pid="C08",
         props=["JaqalProofs/Props/C08.lean", "JaqalProofs/Lemmas/WalkSerialize.lean"],
         targets=["JaqalProofs.Props.C08", "JaqalProofs.Lemmas.WalkSerialize"],
-        diffs=[("harness.agents.walk_diff", 1500, 10000)],
+        diffs=[("harness.agents.walk_diff", 1500, 10000), ("harness.agents.c08_history", 600, 600)],
         extra_run=extra_run,
         trusted=[
             STD_TRUST,
             "hand-written model JaqalModel/Model/Walk.lean of TraceVisitor (fuel-indexed state machine over index / objective / address, with the zero-iteration skip) and TraceSerializer / Visitor.trace_statements; specification WalkSpec.lean (`unroll`, `execVisits`, `specVisits`, `segment`)",
             "correspondence harness harness/agents/walk_diff.py: visit order = [readout.subcircuit.index] of the real run_jaqal_circuit, serialised gates per trace of the real TraceSerializer; every real run under signal.alarm (a timeout is a failure)",
+            "history stream harness/agents/c08_history.py: 2–7 calls of parse / fill_in_let / run_jaqal_circuit / parse_jaqal_output_list per case with SHARED argument objects (the same override dict reused and mutated by the caller between programs that share let names, the same circuit and output list objects), expected visits from an independent reference",
             "numpy.random.choice is an external oracle: it samples only outcomes with non-zero probability (checked per readout by the harness, not proved)",
         ],
         assumptions=[
